@@ -5,4 +5,6 @@
 mod c14;
 #[cfg(kani)]
 mod c15;
+#[cfg(kani)]
+mod c11;
 pub mod stubs;
